@@ -300,6 +300,8 @@ def run(run, tier, seed, replay_case=None):
         if replay_case.startswith("Q "):
             cases, nospec = [], [replay_case]
     env = C.lib_env("asan")
+    # no stack traces: symbolising libocca.so costs seconds per stopped process, and the summary line is enough
+    env["UBSAN_OPTIONS"] = "print_stacktrace=0:halt_on_error=1:exitcode=98"
     D = Diff(run, PROP, [impl], model, env, view=view, signatures=SIGNATURES, keep_first=0,
              model_desc="coq/C27/Model.v vs src/utils/hash.cpp + toHex/fromHex of src/occa/internal/utils/string.hpp")
     orig_known = C.load_known_findings
@@ -308,11 +310,14 @@ def run(run, tier, seed, replay_case=None):
         I, R, S = ([], [], [])
         if cases:
             I, R, S = D.eval(cases)
-            D.judge(cases, I, R, S, proof_failures=pr["failures"])
+            D.judge(cases, I, R, S, proof_failures=pr["failures"], max_report=3)
         nproc2 = second_process(run, impl, env, cases, I) if cases else 0
         if nospec:
             I2, R2, S2 = D.eval(nospec)
-            D.judge(nospec, I2, R2, S2, proof_failures=[])
+            keep = (run.coverage.get("correspondence_disagreements", 0), run.coverage.get("spec_disagreements", 0))
+            D.judge(nospec, I2, R2, S2, proof_failures=[], max_report=3)
+            run.coverage["correspondence_disagreements"] += keep[0]
+            run.coverage["spec_disagreements"] += keep[1]
     finally:
         C.load_known_findings = orig_known
 
